@@ -286,6 +286,33 @@ func init() {
 		}
 		panic(unsupported("reflect.Value.Index on " + rv.T.String()))
 	})
+	reg("reflect.Copy", func(m *Machine, fr *frame, a []Value) Value {
+		dst, src := asRV(a[0]), asRV(a[1])
+		d, ok1 := dst.cur().([]Value)
+		sv, ok2 := src.cur().([]Value)
+		if !ok1 || !ok2 {
+			panic(unsupported("reflect.Copy on values that are not slices"))
+		}
+		n := len(d)
+		if len(sv) < n {
+			n = len(sv)
+		}
+		for i := 0; i < n; i++ {
+			d[i] = copyVal(sv[i]) // element assignment: nested slices, maps and pointers stay shared
+		}
+		return BV(64, uint64(n))
+	})
+	reg("reflect.Append", func(m *Machine, fr *frame, a []Value) Value {
+		rv := asRV(a[0])
+		s0, _ := rv.cur().([]Value)
+		out := append([]Value(nil), s0...)
+		if extra, ok := a[1].([]Value); ok {
+			for _, e := range extra {
+				out = append(out, copyVal(asRV(e).cur()))
+			}
+		}
+		return RV{T: rv.T, V: out}
+	})
 	reg("reflect.MakeMap", func(m *Machine, fr *frame, a []Value) Value {
 		t := asRType(a[0])
 		mt, ok := t.Underlying().(*types.Map)
